@@ -336,9 +336,10 @@ def _reduction(opname, dtype=None, index=False):
             if ext is not None and ext.known():
                 parts.append(("n", A.dim_term(ext)))
         term = T(opname, *parts)
-        if opname == "sum" and x.term.op == "mul" and len(x.term.args) == 2 and sh is not None and len(sh) == 2 and len(parts) == 2 and axis_of(b.get("axis"), rank) in (0, 1):
+        is_sq = x.term.op == "pow" and len(x.term.args) == 2 and x.term.args[1] == const(2)
+        if opname == "sum" and ((x.term.op == "mul" and len(x.term.args) == 2) or is_sq) and sh is not None and len(sh) == 2 and len(parts) == 2 and axis_of(b.get("axis"), rank) in (0, 1):
             # sum_j P_ij Q_ij = diag(P Q^T)_i   (and along the other axis diag(P^T Q))
-            pv, qv = interp.vtab.get(x.term.args[0]), interp.vtab.get(x.term.args[1])
+            pv, qv = interp.vtab.get(x.term.args[0]), interp.vtab.get(x.term.args[0 if is_sq else 1])
             if pv is not None and qv is not None and shape(pv) == tuple(sh) and shape(qv) == tuple(sh):
                 if axis_of(b.get("axis"), rank) == 1:
                     term = T("diagof", T("matmul", pv.term, T("T", qv.term)))
